@@ -19,7 +19,7 @@ LEVEL = "model_checking"
 RULE = (
     "quick: all pairs of G1(4,2) x UNMATCHED x {IoU,Dice,ASSD} x threshold classes and x MATCHED x decision in {none,IoU,Dice,ASSD} x threshold classes; "
     "G1(4,2) x 27 refs x UNMATCHED(all candidates eligible) x decision metric x threshold classes; G2(2,2,2) x 27 refs and binary G3(2,2,2) x 16 refs x SEMANTIC x "
-    "backend in {default,cc3d,scipy} x IoU threshold classes (+ Dice decision); RLE(2) volumes. thorough: G1(5,2)^2, G2(2,2,2)^2, G2(2,3,2) x 81, G3(2,2,2,1)^2, G3(2,2,3,1) x 32, RLE(3) with the same products. "
+    "backend in {default,cc3d,scipy} x IoU threshold classes (+ Dice decision); RLE(2) volumes; one SEMANTIC evaluator (default backend) reused after a 3-D / 1-D input for G2(2,2,2) x 9 refs. thorough: G1(5,2)^2, G2(2,2,2)^2, G2(2,3,2) x 81, G3(2,2,2,1)^2, G3(2,2,3,1) x 32, RLE(3) with the same products. "
     "non-trivial = both sides non-empty and at least one candidate pair; distinct by (arrays, input type)"
 )
 ASSUMPTIONS = [
@@ -44,8 +44,11 @@ def blocks(tier):
         add("dec", (4,), 2, 27, 3)
         add("sem", (2, 2), 2, 27, 3)
         add("sem", (2, 2, 2), 1, 16, 8)
-        B.append(("rle", 2, 0, sc.rle_count(2)))
+        for lo, hi in sc.ranges(sc.rle_count(2), 100):
+            B.append(("rle", 2, lo, hi))
+        B.append(("reuse", 9))
     else:
+        B.append(("reuse", 27))
         add("um", (5,), 2, None, 1)
         add("um", (2, 2), 2, None, 1)
         add("um", (2, 3), 2, 81, 1)
@@ -55,7 +58,7 @@ def blocks(tier):
         add("sem", (2, 2, 2), 1, None, 2)
         add("sem", (2, 2, 3), 1, 32, 8)
         add("sem", (5,), 2, 81, 1)
-        for lo, hi in sc.ranges(sc.rle_count(3), 2000):
+        for lo, hi in sc.ranges(sc.rle_count(3), 300):
             B.append(("rle", 3, lo, hi))
     return B
 
@@ -73,6 +76,13 @@ def run_block(block, acc):
         _, s, lo, hi = block
         for i in range(lo, hi):
             run_case({"kind": "rle", "s": s, "i": i}, acc)
+        return
+    if kind == "reuse":
+        n = sc.grid_count((2, 2), 2)
+        for first in ("3d", "1d"):
+            for i in range(n):
+                for j in ref_indices(n, block[1]):
+                    run_case({"kind": "reuse", "first": first, "pi": i, "ri": j}, acc)
         return
     _, shape, k, nref, lo, hi = block
     n = sc.grid_count(shape, k)
@@ -163,7 +173,39 @@ def arrays_of(case):
     return sc.grid(case["pi"], shape, case["k"]), sc.grid(case["ri"], shape, case["k"])
 
 
+REUSE_FIRST = {"3d": (np.array([[[1, 0], [0, 0]], [[0, 0], [0, 1]]], dtype=np.uint8), np.array([[[1, 0], [0, 2]], [[0, 0], [0, 1]]], dtype=np.uint8)),
+               "1d": (np.array([1, 1, 0, 2, 0, 1], dtype=np.uint8), np.array([1, 0, 0, 2, 2, 1], dtype=np.uint8))}
+
+
+def _reuse_case(case, acc):
+    """ONE evaluator (default CCA backend) evaluates a map of another dimensionality first, then the 2-D case: the second result
+    must still be what the definitions give"""
+    pred, ref = sc.grid(case["pi"], (2, 2), 2), sc.grid(case["ri"], (2, 2), 2)
+    acc.case("reuse", case["first"], case["pi"], case["ri"])
+    matcher = ["thr", "IOU", 0.5, False]
+    mdl = e2e.Model(pred, ref, "SEMANTIC", "default")
+    acc.step(2)
+    try:
+        ev = make_evaluator("SEMANTIC", matcher=matcher, backend="default")
+        ev.evaluate(REUSE_FIRST[case["first"]][0].copy(), REUSE_FIRST[case["first"]][1].copy(), verbose=False)
+        res, steps = ev.evaluate(pred.copy(), ref.copy(), verbose=False)["ungrouped"]
+        obs = observe(res, with_global=False)
+    except Exception as e:
+        acc.violation(f"C01:reuse_raised:{type(e).__name__}", case, f"evaluator reused after a {case['first']} input: evaluate raised {e!r}")
+        return
+    acc.state("reuse", case["first"], case["pi"], case["ri"])
+    if mdl.rp.cands:
+        acc.nontriv("reuse", case["first"], case["pi"], case["ri"])
+    asgs, capped = mdl.assignments(matcher)
+    if any(not e2e.cmp_expected(obs, mdl.expected(a, None)) for a in asgs) or capped:
+        acc.ok()
+    else:
+        acc.violation("C01:reused_evaluator:SEMANTIC", case, f"evaluator first used on a {case['first']} map, then pred={pred.tolist()} ref={ref.tolist()}: result tp/fp/fn={obs['tp']}/{obs['fp']}/{obs['fn']} n_pred={obs['num_pred_instances']} n_ref={obs['num_ref_instances']} is not an admissible result of the definitions")
+
+
 def run_case(case, acc):
+    if case["kind"] == "reuse":
+        return _reuse_case(case, acc)
     pred, ref = arrays_of(case)
     kind = case["kind"]
     acc.case(kind, case.get("shape"), case.get("k"), case.get("pi"), case.get("ri"), case.get("s"), case.get("i"))
